@@ -144,6 +144,7 @@ def replay_export(ck, hists, label, wd, seed, hist_mode=False):
 
 def judge_main(ck, results):
     """S->I in the statement's domain: any difference is a violation"""
+    found = []
     for cs, h, r, skip in results:
         if skip:
             continue
@@ -168,10 +169,13 @@ def judge_main(ck, results):
                 why += "; directory after the run (path: expected, observed): %s" % {
                     p: (fe.get(p), fo.get(p)) for p in sorted(set(fe) | set(fo)) if fe.get(p) != fo.get(p)}
         if why:
-            rn = cs["runs"][0]
-            ck.violation({"kind": "S->I", "case": cs, "expected": h, "observed": r["events"], "info": r["info"]},
-                         what="%s [%s] initial %s, %s: %s" % (rn["prog"], ",".join(rn["on"]) or "-", cs["init"] or "empty directory",
-                                                             ("crash %s/%s" % (rn["crash"]["stage"], rn["crash"]["when"])) if rn["crash"] else "no crash", why))
+            found.append(("directory after the run" not in why, len(found), cs, h, r, why))
+    # cases whose directory after the run is wrong are reported first (only the first 20 violations are printed)
+    for _, _, cs, h, r, why in sorted(found, key=lambda x: x[:2]):
+        rn = cs["runs"][0]
+        ck.violation({"kind": "S->I", "case": cs, "expected": h, "observed": r["events"], "info": r["info"]},
+                     what="%s [%s] initial %s, %s: %s" % (rn["prog"], ",".join(rn["on"]) or "-", cs["init"] or "empty directory",
+                                                         ("crash %s/%s" % (rn["crash"]["stage"], rn["crash"]["when"])) if rn["crash"] else "no crash", why))
 
 
 # ------------------------------------------------------------------ I -> S
@@ -456,9 +460,9 @@ def run(tier):
             g = sorted(groups[k], key=lambda h: json.dumps(h[0]["fs"], sort_keys=True))
             last = g[0][-1]["ev"]
             links = [h for h in g if h[0]["fs"]["out"] == "link"]
-            if last["kind"] == "finish" or last["stage"] == "flush" or (last["stage"], last["when"]) in (("write", "after"), ("pwrite", "mid")):
+            if last["kind"] == "finish" or (last["stage"], last["when"]) in (("flush", "mid"), ("flush", "after"), ("pwrite", "mid")):
                 sel += g                                   # where the backup rule acts: all 20 initial directories
-            elif last["stage"] in ("popen", "pwrite", "write", "open"):
+            elif last["stage"] in ("popen", "pwrite", "write", "open", "flush"):
                 sel += rng.sample([h for h in g if h not in links], 3) + rng.sample(links, 2)
             else:
                 sel += rng.sample([h for h in g if h not in links], 2) + rng.sample(links, 1)
